@@ -174,6 +174,12 @@ def check(ctx):
     core.run_harness(ctx.need_harness(), ["range"] + [str(a) for a in fargs] + ["-out", ft, "-dir", wd], wd, timeout=1200)
     runner.run_job(ctx, _job(ctx, "fault", ft, _rerun([str(a) for a in fargs])))
     paths.append(ft)
+    # leases that expire (1 s) before a restart: still bindings, restored, their addresses nobody else's
+    eargs = ["-mode", "expiry", "-count", 1 if ctx.quick else 2, "-seed", ctx.seed]
+    et = os.path.join(ctx.scratch.sub("range-expiry"), "expiry.ndjson")
+    core.run_harness(ctx.need_harness(), ["range"] + [str(a) for a in eargs] + ["-out", et, "-dir", os.path.dirname(et)], os.path.dirname(et), timeout=600)
+    runner.run_job(ctx, _job(ctx, "expiry", et, _rerun([str(a) for a in eargs])))
+    paths.append(et)
     st = _stats(paths)
     # vacuity guard: the window must really have made writes fail (a binding handed out inside it is missing from the
     # rows of the first crash point after it, on the code as it is)
@@ -240,7 +246,9 @@ def replay(ctx, path):
     if meta.get("family") == "conv":
         from . import fam_conv
         return fam_conv.replay(ctx, path)
-    if meta.get("job") == "fault":
+    if meta.get("job") == "expiry":
+        j = _job(ctx, "replay", None, _rerun(["-mode", "expiry", "-count", 2, "-seed", str(meta.get("seed", 1))]))
+    elif meta.get("job") == "fault":
         j = _job(ctx, "replay", None, _rerun(["-mode", "fault", "-count", 30, "-seed", str(meta.get("seed", 1))]))
     elif meta.get("job") == "probe":
         j = _job(ctx, "replay", None, _rerun(["-mode", "probe"]))
